@@ -457,9 +457,13 @@ var sizePool = []int{0, 1, 10, 100, 4095, 4096, 4097, 10000, 70000}
 
 func genFsSeq(rng *simrt.Rand, maxOps int, acBias bool) (dirs []string, ops []FsOp) {
 	nd := 1 + rng.Intn(3)
-	for i := 0; i < nd; i++ {
-		dirs = append(dirs, fmt.Sprintf("d%d", i))
+	// directory names: usually unrelated, sometimes one a prefix of another (a
+	// flattened "dir/name" key must not confuse db with db2 or db.old)
+	scheme := [][]string{{"d0", "d1", "d2"}, {"d0", "d1", "d2"}, {"d", "d1", "d12"}, {"db", "db.old", "db2"}}[rng.Intn(4)]
+	if scheme[0] != "d0" && nd == 1 {
+		nd = 2
 	}
+	dirs = append(dirs, scheme[:nd]...)
 	m := model.NewFS()
 	for _, d := range dirs {
 		m.Mkdir(d)
